@@ -22,11 +22,12 @@ FILES = ["yamlpath/commands/yaml_get.py", "yamlpath/commands/yaml_diff.py", "yam
 FUNCTIONS = ["yaml_get.main/processcli/validateargs (real argparse over sys.argv)", "EYAMLProcessor.get_eyaml_values",
              "Parsers.jsonify_yaml_data", "yaml_diff.main/get_docs/get_doc/print_report", "Differ.compare_to/get_report",
              "yaml_validate.main/process_file", "ConsolePrinter.info/error/critical",
-             "yaml_paths.main/validateargs/process_yaml_file/print_results/get_search_term/search_for_paths"]
+             "yaml_paths.main/validateargs/process_yaml_file/print_results/get_search_term/search_for_paths",
+             "yaml_merge.main/merge_docs/merge_across/write_output_document, Merger.prepare_for_dump (stdout, format selection)"]
 STUBS = ["document loading: Parsers.get_yaml_data / get_yaml_multidoc_data return harness-built documents (ruamel's scanner "
          "on symbolic bytes is beyond the engine)", "isfile() answers True for the harness file names; stdin is a tty"]
 OUTSIDE = ["leaves outside [-2,2] ([-1,1] for yaml-diff): printing realises every value, so the leaf domain is enumerated",
-           "yaml-set's reloaded file, yaml-merge output formats, file-versus-stdin equivalence, YAML/JSON input parsing, "
+           "yaml-set's reloaded file, yaml-merge output to files and with symbolic content, file-versus-stdin equivalence, YAML/JSON input parsing, "
            "free symbolic argv strings: these clauses of C16 need real bytes through ruamel's loader/dumper and get no "
            "verdict from this technique", "yaml-paths: the search semantics proper are C07's; here the relay from results to "
            "stdout lines (file/document prefix, expression tag, value column, --except filtering, de-duplication, exit status)"]
@@ -223,6 +224,69 @@ def paths_main(a: int, b: int, c: int, values: bool, nofile: bool, two: bool, ex
     return code == 0 and text == "".join(w + "\n" for w in want)
 
 
+def merge_main(k: int) -> bool:
+    """yaml-merge prints the model merge of its inputs in the requested format (stdout; merge_across over 1..2 left documents)."""
+    from types import SimpleNamespace
+    from crosshair import NoTracing
+    import yamlpath.commands.yaml_merge as ym
+    from harness.c18 import pmerge
+    from harness.c05 import to_plain
+    k = realize(k)
+    nl, k = 1 + k % 2, k // 2
+    flow0, k = k % 2, k // 2
+    flow1, k = k % 2, k // 2
+    fmt, k = ["auto", "yaml", "json"][k % 3], k // 3
+    v = k % 2
+    flows = [flow0, flow1][:nl]
+    ldocs = []
+    for i in range(nl):
+        d = cmap(("a", i + 1), ("l", cseq(v, "t")), ("h", cmap(("p", "x y"))))
+        if flows[i]:
+            d.fa.set_flow_style()
+        else:
+            d.fa.set_block_style()
+        ldocs.append(d)
+    rdocs = [cmap(("a", 9), ("h", cmap(("q", v))))]
+    rdocs[0].fa.set_block_style()
+    pl = [to_plain(x) for x in ldocs]
+    pr = [to_plain(x) for x in rdocs]
+    args = SimpleNamespace(quiet=True, verbose=False, debug=False, output=None, overwrite=None, backup=False,
+                           yaml_files=["l.yaml", "r.yaml"], config=None, mergeat="/", nostdin=True, json_indent=-1,
+                           document_format=fmt, hashes=None, arrays=None, aoh=None, sets=None, anchors="stop",
+                           multi_doc_mode="merge_across", preserve_lhs_comments=False)
+    docs = {"l.yaml": ldocs, "r.yaml": rdocs}
+    saved = (ym.processcli, Parsers.get_yaml_multidoc_data, ym.isfile)
+    ym.processcli = lambda: args
+    ym.isfile = lambda p_: True
+    Parsers.get_yaml_multidoc_data = staticmethod(lambda parser, logger, source, **kw: iter([(d, True) for d in docs[source]]))
+    try:
+        with _argv(["yaml-merge"]) as (out, err):
+            code = _run(ym.main)
+    finally:
+        (ym.processcli, Parsers.get_yaml_multidoc_data, ym.isfile) = saved
+    text = out.getvalue()
+    want = [pmerge(pl[0], pr[0])] + pl[1:]
+    want_json = fmt == "json" or (fmt == "auto" and bool(flows[0]))
+    note(left=pl, left_flow_style=[bool(f) for f in flows], right=pr, document_format=fmt, exit_status=code, stdout=text,
+         expected_documents=want, expected_json=want_json)
+    if code != 0:
+        return False
+    with NoTracing():
+        try:
+            if want_json:
+                got = [json.loads(line) for line in text.splitlines() if line.strip()] if nl > 1 else [json.loads(text)]
+            else:
+                if text.lstrip().startswith("{"):
+                    return False
+                yaml = Parsers.get_yaml_editor()
+                got = [to_plain(d) for d in yaml.load_all(text)]
+        except Exception as ex:     # the output does not even parse in the requested format
+            note(unparsable=repr(ex))
+            return False
+    note(reloaded=got)
+    return got == want
+
+
 def shards(tier, seed):
     out = []
     for q in range(8):
@@ -242,6 +306,9 @@ def shards(tier, seed):
                      [("n1", "int"), ("n2", "int"), ("bad1", "int"), ("bad2", "int")],
                      ["1 <= n1 <= 3 and 1 <= n2 <= 3", "-1 <= bad1 <= 3 and -1 <= bad2 <= 3"], family="validate", budget=900,
                      desc="yaml-validate main(): two files of 1..3 documents, at most one invalid each"))
+    out.append(shard(PID, "merge", "harness.c16", "merge_main(k)", [("k", "int")], ["0 <= k < 48"], family="merge", budget=1800,
+                     kind="S", desc="yaml-merge main() to stdout, merge_across over 1..2 left documents in block/flow style x "
+                                    "--document-format auto/yaml/json: the output parses in the expected format and equals the model merge"))
     for two in (False, True):
         for exc in (False, True):
             out.append(shard(PID, "paths/%s%s" % ("two" if two else "one", "_except" if exc else ""), "harness.c16",
